@@ -283,9 +283,15 @@ func run(id string, cfg propCfg, tier string) int {
 		}
 	}
 
-	// Persist replays.
+	// Persist replays (stale ones of an earlier run with the same id, tier
+	// and seed are removed first).
 	replayDir := filepath.Join(verifRoot, "replays")
 	_ = os.MkdirAll(replayDir, 0o755)
+	if old, _ := filepath.Glob(filepath.Join(replayDir, fmt.Sprintf("%s-%s-seed%d-*.json", id, tier, sd))); len(old) > 0 {
+		for _, o := range old {
+			_ = os.Remove(o)
+		}
+	}
 	var kept []string
 	for i, v := range violations {
 		dst := filepath.Join(replayDir, fmt.Sprintf("%s-%s-seed%d-%d.json", id, tier, sd, i))
